@@ -12,7 +12,7 @@ def run(ctx):
             "case, wildcards), IPv4 literals of every textual length 7-15, 16/5/8-octet iPAddress entries, textual truncations, CN-only certificates in five string types, CN next to every kind of SAN. "
             "Every SAN list (1-4 entries, fillers of all kinds incl. a NUL-terminated dNSName) is evaluated in EVERY order; each with nameType ANY and the specific types, both e-mail mFlags, and E in other case. "
             "distinct_nontrivial = distinct (relation class, kind of E, list shape, kinds present, |E|).")
-    return vflib.std_run(ctx, st, "exhaustive_small_scope" if ctx.thorough else "exploration", rule,
+    return vflib.std_run(ctx, st, "exploration", rule,
         ["a single trailing NUL on a dNSName/rfc822Name entry is stripped by the library by documented design (DISABLE_X509_GENERAL_NAME_SUPPORT_C_NULL undefined): granted, counted as lenient:*",
          "nameType ANY is documented as matching every kind; type-correctness is asserted through the specific nameTypes",
          "local-part case, wildcard CNs and multiple CNs are recorded, not asserted; VCERTS_MFLAG_ALWAYS_CHECK_SUBJECT_CN (an explicit opt-out of the SAN-before-CN rule) is not used",
